@@ -471,5 +471,5 @@ def parts(tier, seed):
     q = tier == 'quick'
     return [
         ('enum', 'chains', chains(tier), 40, True),
-        ('hyp', 'trees', 2400 if q else 48000),
+        ('hyp', 'trees', 2000 if q else 48000),
     ]
